@@ -19,5 +19,24 @@ for meta in sorted(glob.glob('/verif/seeded/*/meta.json')):
     rows.append(f"| {os.path.basename(os.path.dirname(meta))} | {m['property']} | {m['summary']} ({m['needs']}) | {m.get('caught_by') or '**not caught**'} | {m.get('notes', '')} |")
 seeded_block = '\n'.join(rows)
 s = re.sub(r'<!-- BEGIN seeded -->.*?<!-- END seeded -->', lambda _m: '<!-- BEGIN seeded -->\n' + seeded_block + '\n<!-- END seeded -->', s, flags=re.S)
+# rule inventory as built (instances from the evidence files of the last run)
+import sys
+sys.path.insert(0, '/verif')
+sys.dont_write_bytecode = True
+import sa.rules  # noqa
+from sa.core import RULES
+rows = ['| Rule | What it decides | Obligations today (frozen minimum) |', '|---|---|---|']
+for prop in sorted(RULES):
+    try:
+        ev = json.load(open(f'/verif/evidence/{prop}.json'))['coverage']['rule_instances']
+    except Exception:
+        ev = {}
+    for r in RULES[prop]:
+        inst = ev.get(r.id, {}).get('instances', '?')
+        doc = ' '.join(r.doc.split())
+        doc = doc if len(doc) < 230 else doc[:227] + '...'
+        rows.append(f"| {r.id}{' (thorough)' if r.tier != 'quick' else ''} | {doc} | {inst} ({r.min_instances}) |")
+rules_block = '\n'.join(rows)
+s = re.sub(r'<!-- BEGIN rules -->.*?<!-- END rules -->', lambda _m: '<!-- BEGIN rules -->\n' + rules_block + '\n<!-- END rules -->', s, flags=re.S)
 open(D, 'w').write(s)
 print('ok')
